@@ -28,21 +28,31 @@ func cmdNest(args []string) error {
 		Ok      bool    `json:"ok"`
 	}
 	var rows []row
+	emit := func() error { return json.NewEncoder(os.Stdout).Encode(rows) }
+	// the option must reach the parser: the smallest budget CreateEvaluator accepts is the number of steps the parse takes
+	for _, src := range []string{"a == 1", "foo.bar != `x` and not (b in c)", "all xs as v { v.k == 1 }", "(a == 1)", `"/a/b" matches "^x"`} {
+		n := realParse([]byte(src), 0).Cnt
+		mb := minBudget(src)
+		rows = append(rows, row{Shape: "smallest accepted budget of " + src, Budget: mb, Steps: n, Outcome: "threshold", Ok: n == 0 || mb == n})
+	}
 	for _, depth := range []int{16, 24, 32, 64} {
-		for shape, src := range map[string]string{
-			"balanced":  strings.Repeat("(", depth) + "a == 1" + strings.Repeat(")", depth),
-			"unmatched": strings.Repeat("(", depth) + "a == 1",
-			"spaced":    strings.Repeat("( ", depth) + "not a == 1 and b in c" + strings.Repeat(" )", depth),
-		} {
+		for _, shape := range []string{"balanced", "unmatched", "spaced"} {
+			src := map[string]string{
+				"balanced":  strings.Repeat("(", depth) + "a == 1" + strings.Repeat(")", depth),
+				"unmatched": strings.Repeat("(", depth) + "a == 1",
+				"spaced":    strings.Repeat("( ", depth) + "not a == 1 and b in c" + strings.Repeat(" )", depth),
+			}[shape]
 			for _, n := range []uint64{1, 1000, 1 << 16, 1 << 22} {
 				stepCount = 0
 				t := time.Now()
-				var outcome string
-				func() {
+				done := make(chan string, 1)
+				go func() {
+					outcome := ""
 					defer func() {
 						if r := recover(); r != nil {
 							outcome = "PANIC"
 						}
+						done <- outcome
 					}()
 					ev, err := bexpr.CreateEvaluator(src, bexpr.WithMaxExpressions(n))
 					switch {
@@ -56,12 +66,19 @@ func cmdNest(args []string) error {
 						outcome = "bad-shape"
 					}
 				}()
+				var outcome string
+				select {
+				case outcome = <-done:
+				case <-time.After(30 * time.Second):
+					// unlimited, these inputs need astronomically many steps: not returning means the budget is not applied
+					rows = append(rows, row{Depth: depth, Shape: shape, Budget: n, Outcome: "did not return within 30 s", Secs: 30, Ok: false})
+					return emit()
+				}
 				secs := time.Since(t).Seconds()
-				// unlimited, these inputs need far more than 2^22 steps: within the budget they must fail with the budget error
-				ok := outcome == "budget" && (stepCount == 0 || stepCount <= n+1) && secs < 20
+				ok := outcome == "budget" && (stepCount == 0 || stepCount <= n+1)
 				rows = append(rows, row{Depth: depth, Shape: shape, Budget: n, Outcome: outcome, Steps: stepCount, Secs: secs, Ok: ok})
 			}
 		}
 	}
-	return json.NewEncoder(os.Stdout).Encode(rows)
+	return emit()
 }
